@@ -9,7 +9,7 @@ N=${1:-5}
 cd /verif
 if [ -n "$(git -C /repo status --porcelain --untracked-files=no)" ]; then echo "refusing: /repo has local changes"; exit 2; fi
 mkdir -p /tmp/par
-ids=$(ls seeded | sort)
+ids=${IDS:-$(ls seeded | sort)}
 i=0
 for w in $(seq 0 $((N - 1))); do : > /tmp/par/list$w; done
 for m in $ids; do echo $m >> /tmp/par/list$((i % N)); i=$((i + 1)); done
